@@ -36,8 +36,9 @@ struct Case {
     op: Op,
     vals: Vec<BigRational>,
     combos: Vec<Vec<NumRepr>>,
-    /// operand index to be injected through its reachability expression in the first combo that allows it
-    via: Option<usize>,
+    /// (operand index, bignum? else rational): that operand is injected through its reachability
+    /// expression in the first combination where it has the wanted representation
+    via: Option<(usize, bool)>,
     landing: bool,
 }
 
@@ -199,7 +200,21 @@ fn gen_case(bytes: &[u8]) -> Case {
         Op::Expt => {
             let base = gen_exact(&mut c);
             let es: [i64; 12] = [0, 1, 2, 3, 4, 7, 16, 31, 32, 33, 63, 64];
-            let e = if c.flip() { *c.pick(&es) } else { c.range(0, 64) };
+            let mut e = if c.flip() { *c.pick(&es) } else { c.range(0, 64) };
+            // known finding (32-bit power overflow of rational bases, a panic in the checked build):
+            // exponents that overflow are kept at a probe rate so that fresh VMs do not dominate the run
+            if !base.is_integer() && e >= 2 {
+                let fits = |e: i64| {
+                    let mut r = BigRational::one();
+                    for _ in 0..e {
+                        r *= &base;
+                    }
+                    fits_rational32(&r)
+                };
+                if !fits(e) && !c.chance(32) {
+                    e = if fits(2) { 2 } else { 1 };
+                }
+            }
             vec![base, rat(e, 1)]
         }
         Op::Quotient | Op::Remainder | Op::Modulo => {
@@ -213,7 +228,7 @@ fn gen_case(bytes: &[u8]) -> Case {
         _ => vec![gen_exact(&mut c)],
     };
     let combos = choose_combos(&vals, &mut c);
-    let via = if c.chance(13) { Some(c.below(vals.len())) } else { None };
+    let via = if c.chance(13) { Some((c.below(vals.len()), c.flip())) } else { None };
     Case { op, vals, combos, via, landing }
 }
 
@@ -358,14 +373,15 @@ fn predicate(op: Op, reps: &[NumRepr], vals: &[BigRational], t: &BigRational) ->
             if both_q {
                 parts.push("both-integer-valued-rationals");
             }
+            if op == Op::Quotient && both_q {
+                // one root cause whatever the values are (the quotient of two n/1 is not truncated)
+                return parts.join(",");
+            }
             let minus_one = b == BigInt::from(-1);
             if a == -pow2(63) && minus_one {
                 parts.push("a=-2^63,b=-1");
             } else if a == -pow2(31) && minus_one {
                 parts.push("a=-2^31,b=-1");
-            }
-            if op == Op::Quotient && both_q && (a == -pow2(31) || b == -pow2(31)) {
-                parts.push("operand=-2^31");
             }
             if op == Op::Modulo {
                 // (a rem b) + b leaves the i32 range although b is inside it
@@ -505,7 +521,11 @@ fn check_case(ctx: &Ctx, sut: &mut Sut, case: &Case) -> Vec<Fail> {
         }
         let mut cells: Vec<_> = reps.iter().map(num_cell).collect();
         let mut via_note = String::new();
-        if let (Some(i), false) = (case.via, via_done) {
+        let via_here = match case.via {
+            Some((i, want_big)) if !via_done && matches!(reps[i], NumRepr::Big(_)) == want_big => Some(i),
+            _ => None,
+        };
+        if let Some(i) = via_here {
             if let Some(e) = sut.reach(&reps[i]) {
                 cells[i] = e;
                 via_done = true;
@@ -657,7 +677,7 @@ impl Prop for C08 {
         let grid_cases = ctx.stats.borrow().evaluations;
         ctx.extra_add("grid_cases", grid_cases);
         // ---- random palette cases
-        let cases = ctx.tier.pick(12_000u32, 300_000u32);
+        let cases = ctx.tier.pick(30_000u32, 600_000u32);
         ctx.run_bytes("rand", cases, 160, |ctx, bytes| {
             let case = gen_case(bytes);
             let fails = check_case(ctx, &mut sut.borrow_mut(), &case);
